@@ -303,7 +303,7 @@ theorem mc_aligned (g c : Geom P T) (m : List Bool) (hc : Consistent g)
       exact keep_length_eq _ _ _ (hv d0 h0)
     · intro d hd
       have := hcd d hd
-      simpa [nCells] using this
+      simpa [nCells, hcs] using this
     · intro c hc'; simp [hcs] at hc'
   | some cells =>
     simp only [hcs] at h
